@@ -186,6 +186,9 @@ async fn scenario(sim: Arc<Sim>, unit: Value) -> Obs {
     }
 
     // ---- the attack ----
+    if unit["bound"].as_u64().unwrap_or(0) > 0 {
+        sim.fabric.set_fate_window(0, 14);
+    }
     let mut conn_open = true;
     let mut held: Vec<(quinn::SendStream, quinn::RecvStream)> = vec![];
     let mut held_uni: Vec<quinn::SendStream> = vec![];
@@ -308,6 +311,12 @@ async fn scenario(sim: Arc<Sim>, unit: Value) -> Obs {
         },
     }
     tokio::time::sleep(ms(30)).await;
+    sim.fabric.set_fate_budget(0);
+    let devs = sim.chooser.lock().unwrap().choices().iter().filter(|c| **c != 0).count();
+    if devs > 0 {
+        // a lost datagram is repaired by a retransmission after a probe timeout
+        tokio::time::sleep(ms(1_500)).await;
+    }
 
     // ---- the network must still work ----
     if conn_open && unit["attack"] != "hold_many_bidi" {
@@ -418,14 +427,12 @@ impl Check for C06 {
         for (pi, (name, bytes, _)) in ps.iter().enumerate() {
             for ending in ENDINGS {
                 for timing in ["before", "during", "after"] {
-                    if tier == Tier::Quick && timing != "during" && ending != "finish" {
-                        continue;
-                    }
-                    u.push(json!({"kind":"payload","payload":pi,"ending":ending,"timing":timing,"desc":format!("{name}, then {ending}"),"bound":0}));
+                    let _ = tier;
+                    u.push(json!({"kind":"payload","payload":pi,"ending":ending,"timing":timing,"desc":format!("{name}, then {ending}"),"bound": if timing == "during" { tier.pick(1, 2) } else { tier.pick(0, 1) }}));
                 }
                 // split the write inside the preamble / inside a length prefix / inside the header
                 for split in [3u64, 10, 14] {
-                    if (split as usize) < bytes.len() && (tier == Tier::Thorough || ending == "finish" || ending == "reset") {
+                    if (split as usize) < bytes.len() {
                         u.push(json!({"kind":"payload","payload":pi,"ending":ending,"timing":"during","split":split,"desc":format!("{name} written in two parts (split at {split}), then {ending}"),"bound":0}));
                     }
                 }
@@ -457,9 +464,6 @@ impl Check for C06 {
             move |sim| {
                 let u = u.clone();
                 async move {
-                    if bound > 0 {
-                        sim.fabric.set_fate_window(60, 20);
-                    }
                     scenario(sim, u).await
                 }
                 .boxed()
@@ -481,9 +485,7 @@ impl Check for C06 {
         let bound = unit["bound"].as_u64().unwrap_or(0);
         let o = sim_exec(seed, &choices, 2_000, move |sim| {
             async move {
-                if bound > 0 {
-                    sim.fabric.set_fate_window(60, 20);
-                }
+                let _ = bound;
                 scenario(sim, u).await
             }
             .boxed()
